@@ -398,6 +398,12 @@ def run(ctx):
     scns = []
     every = {}          # scenario id -> perturb at every position
     replay_ins = None
+    if ctx.replay and json.load(open(ctx.replay))["replay"].get("part") == "desc":
+        # a replay of the description/tags part
+        from props import c08desc as c08d
+        ctx.coverage["desc_part"] = c08d.replay_part(ctx, json.load(open(ctx.replay))["replay"])
+        ctx.coverage.setdefault("trusted_base", [])
+        finish(ctx)
     if ctx.replay:
         rp = json.load(open(ctx.replay))["replay"]
         sc = T.Scn(rp["head"][0].split()[1])
@@ -426,7 +432,7 @@ def run(ctx):
                 sc.nusers = len([l for l in sc.head if l.startswith("user ")])
                 scns.append(sc)
                 every[sc.id] = True
-        total = 100 if quick else 1200
+        total = 80 if quick else 1200
         for pi, (profile, faults, share) in enumerate([("msg", 0.0, 0.35), ("msg", 0.15, 0.2), ("perm", 0.0, 0.3), ("perm", 0.15, 0.15)]):
             for sc in T.gen_scenarios(ctx, max(1, int(total * share)), profile, faults, nops=(6, 20), prefix="p%d_" % pi):
                 sc.ops = sc.ops + probes(rng, sc)
@@ -481,7 +487,7 @@ def run(ctx):
             c, nins = variant_of(scns[0], views[scns[0].id], replay_ins[0], replay_ins[1], "v0")
             variants.append((c, scns[0], replay_ins[0], nins, replay_ins[1]))
     else:
-        n_every = 4 if quick else len(scns)
+        n_every = 3 if quick else len(scns)
         pick_every = set(sc.id for sc in rng.sample(scns, min(n_every, len(scns)))) | set(every)
         for sc in scns:
             n = len(sc.ops)
@@ -552,10 +558,10 @@ def run(ctx):
             per = {}
             pick = []
             for x in sw:
-                if per.get(x[3], 0) < 5:
+                if per.get(x[3], 0) < 4:
                     per[x[3]] = per.get(x[3], 0) + 1
                     pick.append(x)
-            sw = pick[:320]
+            sw = pick[:240]
         else:
             sw = sw[:8000]
         sweep = len(sw)
